@@ -40,7 +40,7 @@ def run_history(params, fn, args, kwargs, ops, res: Result, intern, stream: Stre
     res.count("outcome:" + (impl_outcome[0] if impl_outcome[0] == "ok" else impl_outcome[1]))
     steps_g.append(common.g_pair(
         l1.g_op(op, intern),
-        common.g_pair(l1.g_out(impl_outcome), l1.g_store(after["items"], intern))))
+        common.g_pair(l1.g_out(impl_outcome, op[0] in ("getattr", "getitem")), l1.g_store(after["items"], intern))))
     # ---- the oracle: the property text
     problem = None
     if ref_outcome[0] == "reject":
@@ -51,12 +51,12 @@ def run_history(params, fn, args, kwargs, ops, res: Result, intern, stream: Stre
     else:
       if impl_outcome[0] != "ok":
         problem = f"valid edit raised {impl_outcome[1]}"
-      elif op[0].startswith("get") and impl_outcome[1] != ref_outcome[1]:
+      elif op[0].startswith("get") and typed(impl_outcome[1]) != typed(ref_outcome[1]):
         problem = f"read returned {impl_outcome[1]!r}, reference {ref_outcome[1]!r}"
     if problem is None:
-      if after["list"] != ref.listview():
+      if typed(after["list"]) != typed(ref.listview()):
         problem = f"cfg[:] = {after['list']!r}, reference {ref.listview()!r}"
-      elif after["oa"] != ref.reported():
+      elif typed(after["oa"]) != typed(ref.reported()):
         problem = f"ordered_arguments = {after['oa']!r}, reference {ref.reported()!r}"
     if problem is not None and not failed:
       failed = True
@@ -76,6 +76,15 @@ def run_history(params, fn, args, kwargs, ops, res: Result, intern, stream: Stre
         meta={"signature": common.render_signature(params), "args": args, "kwargs": kwargs,
               "ops": ops[:len(steps_g)]})
   return trace
+
+
+def typed(x):
+  """Values with their types: 1, True and 1.0 are equal in Python but are different arguments."""
+  if isinstance(x, (list, tuple)):
+    return [typed(v) for v in x]
+  if isinstance(x, dict):
+    return {k: typed(v) for k, v in x.items()}
+  return (type(x).__name__, x)
 
 
 def replay_python(params, args, kwargs, ops) -> str:
@@ -120,9 +129,13 @@ def run(tier: str, seed: int) -> Result:
                   "C03Check.check_case")
   res.streams.append(stream)
   counter = itertools.count(100)
-  fresh = lambda: next(counter)
+  fresh_marker = lambda: next(counter)
+  # every third history draws its values from a small pool of values that are EQUAL across types
+  # (0 == False, 1 == True) or None: moving, compacting and overwriting must go by position, not by value
+  fresh_small = lambda: rng.choice([0, 1, False, True, None])
   n_hist = 800 if tier == "quick" else 30000
   for i in range(n_hist):
+    fresh = fresh_small if i % 3 == 2 else fresh_marker
     params = common.gen_signature(rng)
     fn = common.make_function(params)
     args, kwargs = l1.gen_ctor_args(rng, params, fresh)
